@@ -6,11 +6,11 @@ from ..core.model import CallableModel
 from ..core.utils import process_object, register_class
 from ..distributions.distributions import DistributionModel
 from ..typing import ID
-from .kl import _log_q
+from .kl import VariationalObjective, _log_q
 
 
 @register_class
-class CUBO(CallableModel):
+class CUBO(VariationalObjective):
     r"""
     Class representing the :math:`\chi`-upper bound (CUBO) objective [#Dieng2017]_.
 
